@@ -5,6 +5,7 @@ import Pdpy11.Driver.Insn
 import Pdpy11.Driver.Ea
 import Pdpy11.Driver.Directive
 import Pdpy11.Driver.Dec
+import Pdpy11.Driver.Container
 namespace Pdpy11.Driver
 
 def handle (line : String) : String :=
@@ -24,6 +25,9 @@ def handle (line : String) : String :=
     | "asize" => handleAnnounced args
     | "dec" => handleDec args
     | "canon" => handleCanon args
+    | "wavhash" => handleWavHash args
+    | "bin" => handleBin args
+    | "wavread" => handleWavRead args
     | "ping" => "pong"
     | _ => "bad-op"
 
